@@ -73,6 +73,10 @@ def cal_pool(base_day):
         # are judged on inputs that use it (flag `tod`)
         ("tod-end", cal.op("|", W([0, 1, 2, 3, 4, 5, 6], cal.q(8), None, (b + 3) * DAY),
                            W([0, 1, 2, 3, 4, 5, 6], cal.q(2), (b + 6) * DAY, None)), False, False),
+        # a quotient whose divisor is 0 on some days (weekends): there is no capacity to speak of on such a day;
+        # calc must end with a schedule or a RuntimeError (C14), never with ZeroDivisionError.  Like `tod-end`,
+        # inputs that use it are judged for C06 (purity, repeatability) and C14 only
+        ("div0", cal.op("/", W([0, 1, 2, 3, 4, 5, 6], cal.q(8)), W([0, 1, 2, 3, 4], cal.q(2))), False, False),
         ("zero", W([0, 1, 2, 3, 4, 5, 6], cal.q(0)), False, True),
         ("empty", D({}), False, True),
         ("fixed0", cal.fixed(cal.q(0)), False, True),
@@ -206,6 +210,8 @@ def gen_case(rng, direction, n, cid, opts=None):
                 c = rng.choice(choices if not never_ok else [x for x in pool if x[3]] + choices[:2])
                 if rng.random() < 0.08:
                     c = [x for x in pool if x[0] == "tod-end"][0]
+                elif rng.random() < 0.04:
+                    c = [x for x in pool if x[0] == "div0"][0]
                 resources.append({"name": nm, "expr": c[1], "supplied": True, "ample": c[2], "never": c[3],
                                   "calname": c[0]})
             else:
@@ -274,7 +280,7 @@ def gen_case(rng, direction, n, cid, opts=None):
     I = {"dir": direction, "balance": opts.get("balance", rng.random() < 0.7),
          "submin": rng.choice([0, 0, 0, 1, 30, 59]) * 1000000 + rng.choice([0, 0, 250000, 999000]),
          "defEst": q4(rng.choice([0, 0, 8])), "pstart": pstart, "now": now, "tasks": tasks, "roots": roots,
-         "resources": resources, "ext": ext, "tod": any(r["calname"] == "tod-end" for r in resources)}
+         "resources": resources, "ext": ext, "tod": any(r["calname"] in ("tod-end", "div0") for r in resources)}
     return {"id": cid, "I": I}
 
 
@@ -844,7 +850,7 @@ def _design_drift(cases, log, limit, direction, module):
     fwd = [{"id": c["id"], "I": c["I"], "R": {"out": c["R"]["out"], "start": c["R"]["start"], "end": c["R"]["end"],
                                               "rows": c["R"]["rows"]}}
            for c in cases if c["I"]["dir"] == direction and c["R"]["out"] in ("ok", "RuntimeError")
-           and not c["R"]["overflow"] and not (direction == "bwd" and any(t["fstart"] != MISSING for t in c["I"]["tasks"]))]
+           and not c["R"]["overflow"] and not c["I"].get("tod") and not (direction == "bwd" and any(t["fstart"] != MISSING for t in c["I"]["tasks"]))]
     fwd = fwd[:limit]
     if not fwd:
         return {"replayed": 0}
